@@ -181,9 +181,12 @@ class World:
             patch(os, "urandom", lambda n: ent.draw(n, "urandom"))
             real_aesgcm = dcrypto.AESGCM
 
-            class SimAESGCM(real_aesgcm):  # type: ignore[misc,valid-type]
-                @classmethod
-                def generate_key(cls, bit_length: int) -> bytes:
+            class SimAESGCM:  # the Rust class cannot be subclassed: construct the real one, own generate_key
+                def __new__(cls, key):
+                    return real_aesgcm(key)
+
+                @staticmethod
+                def generate_key(bit_length: int) -> bytes:
                     if bit_length not in (128, 192, 256):
                         raise ValueError("bit_length must be 128, 192, or 256")
                     return ent.draw(bit_length // 8, "aesgcm.generate_key")
